@@ -16,6 +16,7 @@ import (
 	"strings"
 	"time"
 
+	istorage "github.com/nspcc-dev/neo-go/pkg/core/interop/storage"
 	"github.com/nspcc-dev/neo-go/pkg/core/storage"
 
 	"verif/harness/internal/hx"
@@ -31,6 +32,11 @@ type runner struct {
 	// intact (a backend that lost a committed batch makes every later answer meaningless)
 	pending []pendingFail
 	nLines  int
+	// chain mode (a quarter of the cases): one chain of layers, every write goes to its top store.
+	// `plain` is then literally the single ordered map holding the net effect of all writes: it is
+	// updated by writes only, never by a flush, and the top store must answer from it at all times.
+	chainTop int
+	plain    map[string][]byte
 }
 
 type pendingFail struct{ key, msg string }
@@ -126,6 +132,13 @@ func realSeekAsync(ch func(ctx context.Context) chan storage.KeyValue, lim int) 
 // checkSeek compares a real seek result with the reference and classifies a difference.
 func (r *runner) checkSeek(what string, id int, sr seekRange, got []kv) {
 	w := r.w
+	if r.plain != nil && id == r.chainTop && sr.depth == 0 {
+		if wp := specSeek(r.plain, sr); !sameKVs(got, wp) {
+			r.fail("plain-map-mismatch", "%s store=%d backend=%s prefix=%s start=%s bw=%v cut=%v lim=%d got %s, the single map of all writes gives %s",
+				what, id, w.nodes[0].kind, hx.Hex(sr.pfx), hx.Hex(sr.start), sr.bw, sr.cut, sr.lim, showKVs(got), showKVs(wp))
+		}
+		r.o.Count("oracle:plain-map-reads")
+	}
 	m := w.view(id, sr.depth)
 	want := specSeek(m, sr)
 	if sameKVs(got, want) {
@@ -291,6 +304,13 @@ func (r *runner) opGet(id int, k []byte) {
 	} else if err != storage.ErrKeyNotFound {
 		obs = "err"
 	}
+	if r.plain != nil && id == r.chainTop {
+		wp, okp := r.plain[string(k)]
+		if okp != (err == nil) || (okp && !bytes.Equal(wp, v)) {
+			r.fail("plain-map-mismatch", "Get store=%d key=%s got %s, the single map of all writes has found=%v %s", id, hx.Hex(k), obs, okp, hx.Hex(wp))
+		}
+		r.o.Count("oracle:plain-map-reads")
+	}
 	want, ok := r.w.view(id, 0)[string(k)]
 	if ok != (err == nil) || (ok && !bytes.Equal(want, v)) {
 		r.fail("get-mismatch", "Get store=%d key=%s got %s want found=%v %s", id, hx.Hex(k), obs, ok, hx.Hex(want))
@@ -316,6 +336,9 @@ func (r *runner) opPut(id int, k, v []byte, viaDao bool) {
 	})
 	if obs == "ok" {
 		n.own[string(k)] = append([]byte{}, v...)
+		if r.plain != nil && id == r.chainTop {
+			r.plain[string(k)] = append([]byte{}, v...)
+		}
 	}
 	r.line(fmt.Sprintf("put %d %s %s", id, hx.Hex(k), hx.Hex(v)), obs)
 	r.o.Count("op:put")
@@ -333,6 +356,9 @@ func (r *runner) opDel(id int, k []byte, viaDao bool) {
 	})
 	if obs == "ok" {
 		n.own[string(k)] = nil
+		if r.plain != nil && id == r.chainTop {
+			delete(r.plain, string(k))
+		}
 	}
 	r.line(fmt.Sprintf("del %d %s", id, hx.Hex(k)), obs)
 	r.o.Count("op:del")
@@ -377,6 +403,13 @@ func (r *runner) opChangeSet(id int, es []kv) {
 				delete(n.own, string(e.k))
 			} else {
 				n.own[string(e.k)] = e.v
+			}
+			if r.plain != nil {
+				if e.v == nil {
+					delete(r.plain, string(e.k))
+				} else {
+					r.plain[string(e.k)] = e.v
+				}
 			}
 		}
 	}
@@ -568,7 +601,14 @@ func (r *runner) windowOps(id int, views []int) {
 		if r.w.nodes[v].dead {
 			v = id
 		}
-		switch r.g.r.Intn(6) {
+		op := r.g.r.Intn(6)
+		if r.plain != nil {
+			v = r.chainTop
+			if r.w.nodes[v].dead && op < 2 {
+				op = 2
+			}
+		}
+		switch op {
 		case 0:
 			r.opPut(v, r.g.key(), r.g.val(), false)
 		case 1:
@@ -725,8 +765,14 @@ func (r *runner) buildTree() {
 		r.line(fmt.Sprintf("layer %d %d %s", n.id, n.ps, b01(priv)), "ok")
 		top = n.id
 	}
+	r.chainTop = -1
+	if g.r.Chance(1, 4) {
+		r.chainTop = top
+		r.plain = map[string][]byte{}
+		r.o.Count("tree:chain-mode")
+	}
 	// siblings: more private layers over some shared store
-	for i, ns := 0, g.r.Intn(3); i < ns; i++ {
+	for i, ns := 0, g.r.Intn(3); i < ns && r.plain == nil; i++ {
 		ps := 1 + g.r.Intn(len(w.nodes)-1)
 		if w.depthOf(ps) >= 4 {
 			continue
@@ -743,6 +789,15 @@ func (r *runner) randomOp() {
 	wr := r.writable()
 	rd := r.readable()
 	fl := r.flushable()
+	chain := r.plain != nil
+	if chain {
+		// writes and compared reads go to the top of the chain only
+		wr = nil
+		if !w.nodes[r.chainTop].dead {
+			wr = []int{r.chainTop}
+		}
+		rd = []int{r.chainTop}
+	}
 	// most traffic goes to the top-most stores
 	pickTop := func(ids []int) int {
 		if g.r.Chance(3, 5) {
@@ -750,7 +805,7 @@ func (r *runner) randomOp() {
 		}
 		return ids[g.r.Intn(len(ids))]
 	}
-	switch g.r.Weighted([]int{24, 10, 6, 12, 16, 9, 4, 4, 2, 6, 2, 4, 3, 1, 2}) {
+	switch g.r.Weighted([]int{24, 10, 6, 12, 16, 9, 4, 4, 2, 6, 2, 4, 3, 1, 2, 4}) {
 	case 0:
 		if len(wr) > 0 {
 			r.opPut(pickTop(wr), g.key(), g.val(), g.r.Chance(1, 4))
@@ -762,8 +817,10 @@ func (r *runner) randomOp() {
 	case 2:
 		// changeset to a cache layer or straight to the backend
 		id := 0
-		if g.r.Chance(1, 2) && len(wr) > 0 {
+		if (chain || g.r.Chance(1, 2)) && len(wr) > 0 {
 			id = wr[g.r.Intn(len(wr))]
+		} else if chain {
+			return
 		}
 		var es []kv
 		for i, n := 0, g.r.Range(1, 5); i < n; i++ {
@@ -776,13 +833,13 @@ func (r *runner) randomOp() {
 		r.opChangeSet(id, es)
 	case 3:
 		id := pickTop(rd)
-		if g.r.Chance(1, 8) {
+		if g.r.Chance(1, 8) && !chain {
 			id = 0
 		}
 		r.opGet(id, g.key())
 	case 4:
 		id := pickTop(rd)
-		if g.r.Chance(1, 8) {
+		if g.r.Chance(1, 8) && !chain {
 			id = 0
 		}
 		r.opSeek(id, g.rng(id == 0 && w.nodes[0].kind != "mem"))
@@ -798,6 +855,9 @@ func (r *runner) randomOp() {
 		}
 		r.opDaoSeek(pickTop(rd), sr, g.r.Bool())
 	case 8:
+		if chain {
+			return // SeekGC drops cache entries, it is not a write to the map
+		}
 		id := g.r.Intn(len(w.nodes))
 		if w.nodes[id].temp {
 			id = 0
@@ -817,7 +877,7 @@ func (r *runner) randomOp() {
 		}
 	case 12:
 		// PersistPrivate: all live private children of one store
-		for _, id := range rd {
+		for _, id := range r.readable() {
 			var ch []int
 			for _, n := range w.nodes {
 				if privateOver(n, w.nodes[id]) && !n.temp && !n.dead && n.ps == id {
@@ -833,10 +893,21 @@ func (r *runner) randomOp() {
 		if len(fl) > 0 {
 			r.opPausedPersist(fl[g.r.Intn(len(fl))], true)
 		}
+	case 15:
+		sr := g.rng(false)
+		pfx := g.daoTail()
+		if bytes.HasPrefix(sr.pfx, daoPrefix) {
+			pfx = sr.pfx[len(daoPrefix):]
+		}
+		opts := []int64{0, 0, istorage.FindRemovePrefix, istorage.FindKeysOnly, istorage.FindKeysOnly | istorage.FindRemovePrefix, istorage.FindValuesOnly}[g.r.Intn(6)]
+		if sr.bw {
+			opts |= istorage.FindBackwards
+		}
+		r.opFind(pickTop(rd), pfx, opts, sr.lim)
 	case 14:
 		// grow the tree: a new layer over a live store
 		ps := rd[g.r.Intn(len(rd))]
-		if w.depthOf(ps) < 4 && !w.nodes[ps].dead && len(w.nodes) < 12 {
+		if w.depthOf(ps) < 4 && !w.nodes[ps].dead && len(w.nodes) < 12 && !chain {
 			priv := g.r.Chance(2, 3)
 			n := w.addLayer(ps, priv)
 			r.line(fmt.Sprintf("layer %d %d %s", n.id, n.ps, b01(priv)), "ok")
@@ -932,12 +1003,22 @@ func runCaseOnce(o *hx.Out, f *hx.Flags, k int, kind string, nops int, corpus fu
 		return "", false
 	}
 	r.buildTree()
+	// some content first: a batch straight into the backend and a few puts in the layers
+	var es []kv
+	for i, n := 0, r.g.r.Range(2, 6); i < n; i++ {
+		es = append(es, kv{k: r.g.key(), v: r.g.val()})
+	}
+	r.opChangeSet(0, es)
+	for i, n := 0, r.g.r.Range(3, 8); i < n; i++ {
+		wr := r.writable()
+		id := wr[r.g.r.Intn(len(wr))]
+		if r.plain != nil {
+			id = r.chainTop
+		}
+		r.opPut(id, r.g.key(), r.g.val(), false)
+	}
 	for i := 0; i < nops; i++ {
 		r.randomOp()
-		if os.Getenv("STORE_DEBUG") != "" {
-			got, _ := realSeek(w.nodes[0].st, seekRange{pfx: []byte{0x70}})
-			fmt.Fprintf(os.Stderr, "after op %d: backend 0x70 keys: %s\n", i, showKVs(got))
-		}
 	}
 	r.finalChecks()
 	if ok, m := r.backendIntact(); !ok {
@@ -967,8 +1048,15 @@ func main() {
 			k++
 		}
 	}
+	// a Seek overlapped by a writer batch and a complete flush (oracle only)
+	for _, priv := range []bool{false, true} {
+		if f.Want(k) {
+			runTornSeekCase(o, f, k, "mem", priv)
+		}
+		k++
+	}
 	// concurrency cases: readers racing Persist (oracle only)
-	for i, n := 0, f.N(40, 1500); i < n; i++ {
+	for i, n := 0, f.N(40, 800); i < n; i++ {
 		if f.Want(k) {
 			kind := "mem"
 			if i%10 == 9 {
@@ -978,8 +1066,8 @@ func main() {
 		}
 		k++
 	}
-	nMem := f.N(1500, 60000)
-	nDisk := f.N(150, 6000)
+	nMem := f.N(1500, 30000)
+	nDisk := f.N(150, 3000)
 	for i := 0; i < nMem; i++ {
 		if f.Want(k) {
 			runCase(o, f, k, "mem", 60, nil)
